@@ -94,7 +94,16 @@ PairSweep ==
         sct(n) == [ver |-> 0, id |-> Id32(1), ts |-> Tss[2], ext |-> <<>>, sig |-> Sig(<<x \div 256, x % 256>>, Fill(q, n))] IN
     << [kind |-> "pair", fn |-> OneFn, bytes |-> EncSct(sct(<<0, 64, 114, 3>>[(q % 4) + 1])), want |-> <<x, <<0, 64, 114, 3>>[(q % 4) + 1]>>, extra |-> 0],
        [kind |-> "pair", fn |-> ListFn, bytes |-> EncSctList(<<sct(3), Scts[2]>>), want |-> <<x, 3>>, extra |-> 0] >>])
-ASSUME TLCSet(1, LongTailCases \o PairSweep \o ManyCases \o SigSweep \o SingleCases \o ListCases \o BeyondEntryCases \o BeyondListCases \o CutCases \o InnerCases)
+(* a list of the maximum size (length field 65535) whose single entry fills it exactly; the same with that entry declaring *)
+(* one and two bytes more than the list holds                                                                           *)
+MaxSct == [ver |-> 0, id |-> Id32(4), ts |-> Tss[3], ext |-> Fill(1, 30000), sig |-> Sig(<<4, 3>>, Fill(2, 35486))]
+MaxCases ==
+  LET e == EncSct(MaxSct)  c == SubSeq(e, 3, Len(e)) IN
+  << Mk("list", ListFn, BE16(65535) \o e, <<0>>, 0),
+     Mk("beyondentry", ListFn, BE16(65535) \o BE16(65534) \o c, <<>>, 0),
+     Mk("beyondentry", ListFn, BE16(65535) \o BE16(65535) \o c, <<>>, 0),
+     Mk("beyondentry", ListFn, BE16(65535) \o BE16(65535) \o c \o <<1, 2, 3>>, <<>>, 0) >>
+ASSUME TLCSet(1, LongTailCases \o MaxCases \o PairSweep \o ManyCases \o SigSweep \o SingleCases \o ListCases \o BeyondEntryCases \o BeyondListCases \o CutCases \o InnerCases)
 Cases == TLCGet(1)
 N == Len(Cases)
 
@@ -104,7 +113,7 @@ Init == i = Chunk + 1 /\ i <= N /\ res = Apply(Cases[i].fn, NoArgs, Cases[i].byt
 Next == i + NChunks <= N /\ i' = i + NChunks /\ res' = Apply(Cases[i'].fn, NoArgs, Cases[i'].bytes)
         /\ cres' = C!Apply(Cases[i'].fn, NoArgs, Cases[i'].bytes)
 
-WantList(c) == [h \in 1..Len(c.want) |-> Scts[c.want[h]]]
+WantList(c) == [h \in 1..Len(c.want) |-> IF c.want[h] = 0 THEN MaxSct ELSE Scts[c.want[h]]]
 -----------------------------------------------------------------------------
 ListRoundTrip ==
   LET c == Cases[i] IN
